@@ -221,7 +221,8 @@ def defaults(prog, rep):
             if isinstance(tg, ast.Name) and t == dflt:
                 d_ok = True
             if isinstance(tg, ast.Name) and tg.id == "fit_descriptions" and ("isnone", fdp) in pc:
-                all_none = t[0] == "comp" and t[2] == dflt and t[4] == ("call", G("range"), (("attr", SELF, "n_dim"),), ())
+                all_none = (t[0] == "comp" and t[2] == dflt and t[4] == ("call", G("range"), (("attr", SELF, "n_dim"),), ())) \
+                    or t == ("bin", "*", ("list", (dflt,)), ("attr", SELF, "n_dim"))
             if isinstance(tg, ast.Subscript):
                 base = b.term(tg.value, st)
                 idx = b.term(tg.slice, st)
@@ -236,5 +237,5 @@ def defaults(prog, rep):
     rep.check(w_none, "C09.defaults", f"{q}:weights", fn.where(), "missing 'weights' -> None in the same entry",
               "a description without 'weights' must get weights=None in the same entry")
     ret = [s for s in cfg.all_stmts() if isinstance(s, ast.Return)]
-    rep.check(len(ret) == 1 and all(a in (fdp,) or a[0] == "comp" for a in alts(b.term(ret[0].value, ret[0]))), "C09.defaults", f"{q}:returns", fn.where(),
+    rep.check(len(ret) == 1 and all(a in (fdp,) or a[0] in ("comp", "bin") for a in alts(b.term(ret[0].value, ret[0]))), "C09.defaults", f"{q}:returns", fn.where(),
               "returns the (filled) descriptions", "must return the filled fit descriptions")
